@@ -6,7 +6,7 @@ TIMEOUT = {"quick": 1500, "thorough": 7000}
 RULE = ("matrix: site {ReaderFunc, WriterFunc, Scan callback, Map, Filter, Flatmap, Fold, Reduce combiner, Repartition partitioner} "
         "x mode {error, temporary error, panic, partition out of range (n and -1)} (as applicable to the site) x {persistent, one-shot} "
         "x failing call index k in {0,1,2,3,5,8,13,40} (first row, vector boundaries of CH 1/2/4, last rows, never) x downstream "
-        "{nothing, reduce, reshuffle+map} x configuration {local with parallelism 4 and 1, bigmachine testsystem 2x2, 1x1, 1x4 with machine combiners} x vector size "
+        "{nothing, reduce, reshuffle+map, head 2, head 4} x configuration {local with parallelism 4 and 1, bigmachine testsystem 2x2, 1x1, 1x4 with machine combiners} x vector size "
         "{1,2,4,128}; after the faulty program a healthy program runs in the same session; thorough = the whole matrix, quick = a "
         "seeded 1/5 sample stratified by site; non-trivial = the failure actually fired")
 TRUST = ["the harness counts the failing calls of the injected function (fired=) in-process; bigmachine workers are testsystem "
@@ -41,7 +41,10 @@ def matrix():
         for mode in modes:
             for once in ("always", "once"):
                 for k in KS:
-                    for d in DOWN:
+                    # a Head downstream (only where the row order is fixed): the failure may arrive together with the rows that
+                    # complete the head
+                    downs = DOWN + ([" ; N2=head N1 2", " ; N2=head N1 4"] if site in ("reader", "writer", "map", "filter", "flatmap") else [])
+                    for d in downs:
                         if site == "scan" and d:
                             continue
                         for cfg in CONFIGS:
